@@ -89,7 +89,7 @@ fn check_params_list(list: &Value, obs: &mut Obs) -> CaseResult {
     Ok(())
 }
 
-fn check_formats_list(list: &Value, obs: &mut Obs) -> CaseResult {
+pub fn check_formats_list(list: &Value, obs: &mut Obs) -> CaseResult {
     let (known, unknown) = spec_filter_formats(list).map_err(|e| Fail::new("C14:harness", e, json!({})))?;
     let n = list.as_array().map(|a| a.len()).unwrap_or(0);
     if n > known.len() && !known.is_empty() {
@@ -210,6 +210,75 @@ fn g_params_random(src: &mut Src, obs: &mut Obs) -> CaseResult {
     check_params_list(&list, obs)
 }
 
+/// Algorithm identifiers outside the 32-bit range, in particular those congruent to -7 / -8 modulo
+/// 2^32 or 2^16. Such an entry names no supported algorithm: the decoder may reject the list (the
+/// range rule of C12) but if it accepts it, the entry must not be reported as ES256 / EdDSA and the
+/// genuine entries must be reported as usual.
+fn g_wide_alg(src: &mut Src, obs: &mut Obs) -> CaseResult {
+    const WIDE: [i128; 14] = [
+        4294967289, 4294967288, -4294967303, -4294967304, 8589934585, 8589934584, 2147483648, -2147483649,
+        65529, 65528, -65543, 18446744073709551609, -9223372036854775808, 9223372036854775807,
+    ];
+    let n = src.range(1, 4);
+    let mut want: Vec<i32> = vec![];
+    let mut entries = vec![];
+    let mut has_wide_out_of_range = false;
+    for _ in 0..n {
+        let (algv, alg128): (Value, i128) = if src.chance(1, 2) {
+            let w = WIDE[src.below(WIDE.len())];
+            (if w >= 0 { Value::Uint(w as u64) } else { Value::Nint((-1 - w) as u64) }, w)
+        } else {
+            let a = if src.bool() { -7 } else { -8 };
+            (Value::int(a), a as i128)
+        };
+        if alg128 > i32::MAX as i128 || alg128 < i32::MIN as i128 {
+            has_wide_out_of_range = true;
+        }
+        if (alg128 == -7 || alg128 == -8) && want.len() < 2 {
+            want.push(alg128 as i32);
+        }
+        entries.push(Value::Map(vec![ks("alg", algv), ks("type", Value::text("public-key"))]));
+    }
+    let list = Value::Array(entries);
+    let enc = refcbor::encode(&list);
+    obs.label("params:wide-identifiers");
+    obs.nontrivial(&[&enc]);
+    obs.case_with(|| json!({"params_hex": hex(&enc)}));
+    let fail = |path: &str, got: String| {
+        Fail::new(format!("C14:params:wide-identifier:{}", path), format!("{}: parameter list {} -> {}, expected algs {:?} (or a rejection of the out-of-range identifier)", path, refcbor::diag(&list), got, want), json!({"list_hex": hex(&enc)}))
+            .with_concrete("c14_params", enc.clone())
+    };
+    match cbor_deserialize::<FilteredPublicKeyCredentialParameters>(&enc) {
+        Ok(f) => {
+            let g: Vec<i32> = f.0.iter().map(|k| k.alg).collect();
+            if g != want {
+                return Err(fail("stand-alone", format!("{:?}", g)));
+            }
+        }
+        Err(e) => {
+            if !has_wide_out_of_range {
+                return Err(fail("stand-alone", format!("rejected {:?}", e)));
+            }
+        }
+    }
+    match Request::deserialize(&mc_with(&list, None)) {
+        Ok(Request::MakeCredential(r)) => {
+            let g: Vec<i32> = r.pub_key_cred_params.0.iter().map(|k| k.alg).collect();
+            if g != want {
+                return Err(fail("MakeCredential", format!("{:?}", g)));
+            }
+        }
+        Ok(_) => return Err(fail("MakeCredential", "wrong variant".into())),
+        Err(e) => {
+            if !has_wide_out_of_range {
+                return Err(fail("MakeCredential", format!("rejected 0x{:02x}", e as u8)));
+            }
+        }
+    }
+    Ok(())
+}
+pub const G_WIDE_ALG: Gen = Gen { name: "c14_wide_alg", f: g_wide_alg };
+
 fn g_formats_random(src: &mut Src, obs: &mut Obs) -> CaseResult {
     let mut info = Info::default();
     let list = if src.chance(1, 8) {
@@ -270,10 +339,10 @@ pub const G_PC: Gen = Gen { name: "c14_params", f: g_params_concrete };
 pub const G_FC: Gen = Gen { name: "c14_formats", f: g_formats_concrete };
 
 pub fn gens() -> Vec<Gen> {
-    vec![G_PS, G_FS, G_PR, G_FR, G_PC, G_FC, G_AS]
+    vec![G_PS, G_FS, G_PR, G_FR, G_PC, G_FC, G_AS, G_WIDE_ALG]
 }
 
-pub const RULE: &str = "Exhaustive: all 5 461 lists of length 0..6 over {ES256, EdDSA, unknown algorithm with type public-key, known algorithm with unknown type} and all 1 365 lists of length 0..5 over {packed, none, tpm, other text}. proptest: parameter lists of up to 64 entries (12/13/64 boosted) with alg over the whole i32 range (-7/-8 boosted), type strings of 0..32 bytes (public-key and near misses boosted), entry member order either way; format lists up to 40 entries. Each parameter list is observed stand-alone, as MakeCredential member 4 and as GetInfo member 0x0A (decode side); each format list as MakeCredential member 0x0B and GetAssertion member 9. Oracle: entries.filter(type == public-key and alg in {-7,-8}).take(2) in order; known = entries.filter(in {packed,none}).take(2) in order, unknown flag = any other entry; decoding never fails. Non-trivial: a list with at least one dropped and one kept entry; evaluations count observation paths.";
+pub const RULE: &str = "Exhaustive: all 5 461 lists of length 0..6 over {ES256, EdDSA, unknown algorithm with type public-key, known algorithm with unknown type} and all 1 365 lists of length 0..5 over {packed, none, tpm, other text}. proptest: parameter lists of up to 64 entries (12/13/64 boosted) with alg over the whole i32 range (-7/-8 boosted), type strings of 0..32 bytes (public-key and near misses boosted), entry member order either way; format lists up to 40 entries. Lists with identifiers outside the 32-bit range (congruent to -7/-8 modulo 2^32 and 2^16, the i64/u64 extremes) next to genuine entries: either rejected, or filtered as if the wide entry named an unknown algorithm. Each parameter list is observed stand-alone, as MakeCredential member 4 and as GetInfo member 0x0A (decode side); each format list as MakeCredential member 0x0B and GetAssertion member 9. Oracle: entries.filter(type == public-key and alg in {-7,-8}).take(2) in order; known = entries.filter(in {packed,none}).take(2) in order, unknown flag = any other entry; decoding never fails. Non-trivial: a list with at least one dropped and one kept entry; evaluations count observation paths.";
 pub const ASSUMPTIONS: &[&str] = &["the filter rules are transcribed from the property statement"];
 
 pub fn run(ctx: &mut Ctx) {
@@ -296,6 +365,7 @@ pub fn run(ctx: &mut Ctx) {
     );
     ctx.exhaustive.push("every algorithm identifier in -66000..=66000 as a public-key entry, alone and mixed with ES256/EdDSA".into());
     ctx.random(&G_PR, &[], ctx.t(8_000, 400_000), 900);
+    ctx.random(&G_WIDE_ALG, &[], ctx.t(4_000, 100_000), 24);
     ctx.random(&G_FR, &[], ctx.t(4_000, 200_000), 400);
     ctx.require(&["params:small-alphabet", "formats:small-alphabet", "params:random", "formats:random", "params:len>12", "params:alg-sweep", "path:GetInfo.0x0A", "path:GetAssertion.9"]);
 }
